@@ -8,6 +8,6 @@ python3 gen/pest2lean.py "${JP_REPO:-/repo}/src/parser/grammar/json_path_9535.pe
 if ! cmp -s .work/PestGrammar.lean.new lean/JsonPathVerif/PestGrammar.lean; then cp .work/PestGrammar.lean.new lean/JsonPathVerif/PestGrammar.lean; fi
 (cd lean && lake build JsonPathVerif jpmodel)
 sed -i "s#path = \"[^\"]*\"#path = \"${JP_REPO:-/repo}\"#" harness/Cargo.toml
-[ -f harness/Cargo.lock ] || cp "${JP_REPO:-/repo}/Cargo.lock" harness/Cargo.lock
+[ -f harness/Cargo.lock ] || { [ -f "${JP_REPO:-/repo}/Cargo.lock" ] && cp "${JP_REPO:-/repo}/Cargo.lock" harness/Cargo.lock; } || true
 (cd harness && cargo build --release --offline)
 echo setup-ok
